@@ -24,7 +24,7 @@ class CallsMixin:
             ln, arr = T.seq_len(v.ty, term), T.seq_arr(v.ty, term)
             et = v.ty.args[0]
             locs = (v.loc,) if v.loc is not None else ()
-            return IterModel(ln, lambda i, s: self.unbox(et, z3.Select(arr, i), s), src_locs=locs)
+            return IterModel(ln, lambda i, s: self.unbox(et, T.Sel(arr, i), s), src_locs=locs)
         if k == 'Tuple':
             n = len(v.ty.args)
             items = [self.tuple_get(v, i, st) for i in range(n)]
@@ -50,7 +50,7 @@ class CallsMixin:
             term = self.load(v, st)
             n0, n1, arr = T.mat_n0(v.ty, term), T.mat_n1(v.ty, term), T.mat_arr(v.ty, term)
             et = v.ty.args[0]
-            return IterModel(n0, lambda i, s: V(Ty('Np1', (et,)), T.seq_mk(Ty('Np1', (et,)), n1, z3.Select(arr, i))))
+            return IterModel(n0, lambda i, s: V(Ty('Np1', (et,)), T.seq_mk(Ty('Np1', (et,)), n1, T.Sel(arr, i))))
         raise Unsupported(f'iteration over {v.ty!r}')
 
     def range_model(self, args, st):
@@ -137,14 +137,14 @@ class CallsMixin:
         ef = z3.Lambda([i], elt_t)
         ax = [rl >= 0, rl <= m.n,
               z3.ForAll([a], z3.Implies(z3.And(0 <= a, a < rl),
-                                        z3.And(0 <= src(a), src(a) < m.n, z3.Select(cf, src(a)), dst(src(a)) == a))),
-              z3.ForAll([a], z3.Implies(z3.And(0 <= a, a < m.n, z3.Select(cf, a)),
+                                        z3.And(0 <= src(a), src(a) < m.n, T.Sel(cf, src(a)), dst(src(a)) == a))),
+              z3.ForAll([a], z3.Implies(z3.And(0 <= a, a < m.n, T.Sel(cf, a)),
                                         z3.And(0 <= dst(a), dst(a) < rl, src(dst(a)) == a))),
               z3.ForAll([a, b], z3.Implies(z3.And(0 <= a, a < b, b < rl), src(a) < src(b)))]
         for x in ax:
             st.assume(x) if not st.guards else (_ for _ in ()).throw(Unsupported('filtered comprehension under guard'))
         r = z3.Int(fresh_name('r'))
-        res = self.mk_list(st, elt.ty, rl, z3.Lambda([r], z3.Select(ef, src(r))), kind=kind)
+        res = self.mk_list(st, elt.ty, rl, z3.Lambda([r], T.Sel(ef, src(r))), kind=kind)
         self.last_filter = dict(src=src, dst=dst, n=m.n, cond=cf)
         return res
 
@@ -160,7 +160,7 @@ class CallsMixin:
             if isinstance(sv, tuple):
                 raise Unsupported('all/any over dict')
             x = z3.Const(fresh_name('e'), sort_of(sv.ty.args[0]))
-            dom = z3.Select(self.load(sv, st), x)
+            dom = T.Sel(self.load(sv, st), x)
             item = self.unbox(sv.ty.args[0], x, st)
             bv = [x]
         else:
@@ -203,7 +203,7 @@ class CallsMixin:
                 ln, arr = self.seq_parts(val, st)
                 self.total(st, ln == len(target.elts), f'unpack arity {len(target.elts)}')
                 for i, e in enumerate(target.elts):
-                    self.bind_target(e, self.unbox(val.ty.args[0], z3.Select(arr, zint(i)), st), st)
+                    self.bind_target(e, self.unbox(val.ty.args[0], T.Sel(arr, zint(i)), st), st)
                 return
             raise Unsupported(f'unpack of {val.ty!r}')
         raise Unsupported(f'binding target {type(target).__name__}')
@@ -377,7 +377,7 @@ class CallsMixin:
             et = v.ty.args[0]
             x = z3.Const(fresh_name('e'), sort_of(et))
             i = z3.Int(fresh_name('i'))
-            return self.new_cell(st, SetT(et), z3.Lambda([x], z3.Exists([i], z3.And(0 <= i, i < ln, z3.Select(arr, i) == x))))
+            return self.new_cell(st, SetT(et), z3.Lambda([x], z3.Exists([i], z3.And(0 <= i, i < ln, T.Sel(arr, i) == x))))
         raise Unsupported(f'set({v.ty!r})')
 
     def isinstance_(self, v, clsnode, st):
@@ -466,11 +466,18 @@ class CallsMixin:
             return self.mk_list(st, et, n, z3.K(z3.IntSort(), fv), kind='Np1')
         if name in ('np.any', 'np.all'):
             v = vals[0]
+            if v.ty.kind == 'Np2':
+                t = self.load(v, st)
+                i, j = z3.Int(fresh_name('i')), z3.Int(fresh_name('j'))
+                el = self.truth(V(v.ty.args[0], T.Sel(T.Sel(T.mat_arr(v.ty, t), i), j)), st)
+                d = z3.And(0 <= i, i < T.mat_n0(v.ty, t), 0 <= j, j < T.mat_n1(v.ty, t))
+                return V(BOOL, z3.Exists([i, j], z3.And(d, el)) if name == 'np.any' else
+                         z3.ForAll([i, j], z3.Implies(d, el)))
             if v.ty.kind not in ('List', 'Np1'):
                 raise Unsupported(f'{name} on {v.ty!r}')
             ln, arr = self.seq_parts(v, st)
             i = z3.Int(fresh_name('i'))
-            el = self.truth(self.unbox(v.ty.args[0], z3.Select(arr, i), st), st)
+            el = self.truth(self.unbox(v.ty.args[0], T.Sel(arr, i), st), st)
             d = z3.And(0 <= i, i < ln)
             return V(BOOL, z3.Exists([i], z3.And(d, el)) if name == 'np.any' else z3.ForAll([i], z3.Implies(d, el)))
         if name == 'np.sum':
@@ -499,7 +506,7 @@ class CallsMixin:
                 o = self.coerce(self.to_list(vals[0], st), ListT(et), st)
                 ol, oa = self.seq_parts(o, st)
                 i = z3.Int(fresh_name('i'))
-                self.store(obj, T.seq_mk(obj.ty, ln + ol, z3.Lambda([i], z3.If(i < ln, z3.Select(arr, i), z3.Select(oa, i - ln)))), st)
+                self.store(obj, T.seq_mk(obj.ty, ln + ol, z3.Lambda([i], z3.If(i < ln, T.Sel(arr, i), T.Sel(oa, i - ln)))), st)
                 return self.const(None)
             if name == 'copy':
                 ln, arr = self.seq_parts(obj, st)
@@ -509,11 +516,11 @@ class CallsMixin:
                 x = self.coerce(vals[0], et, st)
                 xt = self.as_term(x, st)
                 j = z3.Int(fresh_name('j'))
-                self.total(st, z3.Exists([j], z3.And(0 <= j, j < ln, z3.Select(arr, j) == xt)),
+                self.total(st, z3.Exists([j], z3.And(0 <= j, j < ln, T.Sel(arr, j) == xt)),
                            f'value present for {self.src(node)}', node)
                 r = z3.Int(fresh_name('idx'))
-                st.assume(z3.And(0 <= r, r < ln, z3.Select(arr, r) == xt,
-                                 z3.ForAll([j], z3.Implies(z3.And(0 <= j, j < r), z3.Select(arr, j) != xt))))
+                st.assume(z3.And(0 <= r, r < ln, T.Sel(arr, r) == xt,
+                                 z3.ForAll([j], z3.Implies(z3.And(0 <= j, j < r), T.Sel(arr, j) != xt))))
                 return V(INT, r)
             if name == 'astype' and k == 'Np1':
                 tgt = self.src(node.args[0])
@@ -535,7 +542,7 @@ class CallsMixin:
             if name in ('discard', 'remove'):
                 x = self.coerce(vals[0], et, st)
                 if name == 'remove':
-                    self.total(st, z3.Select(s, self.as_term(x, st)), 'element present for set.remove', node)
+                    self.total(st, T.Sel(s, self.as_term(x, st)), 'element present for set.remove', node)
                 self.store(obj, z3.Store(s, self.as_term(x, st), z3.BoolVal(False)), st)
                 return self.const(None)
             if name == 'copy':
@@ -546,11 +553,11 @@ class CallsMixin:
                 ot = self.load(o, st)
                 x = z3.Const(fresh_name('e'), sort_of(et))
                 if name in ('update', 'union'):
-                    r = z3.Lambda([x], z3.Or(z3.Select(s, x), z3.Select(ot, x)))
+                    r = z3.Lambda([x], z3.Or(T.Sel(s, x), T.Sel(ot, x)))
                 elif name.startswith('difference'):
-                    r = z3.Lambda([x], z3.And(z3.Select(s, x), z3.Not(z3.Select(ot, x))))
+                    r = z3.Lambda([x], z3.And(T.Sel(s, x), z3.Not(T.Sel(ot, x))))
                 else:
-                    r = z3.Lambda([x], z3.And(z3.Select(s, x), z3.Select(ot, x)))
+                    r = z3.Lambda([x], z3.And(T.Sel(s, x), T.Sel(ot, x)))
                 if name in ('update', 'difference_update', 'intersection_update'):
                     self.store(obj, r, st)
                     return self.const(None)
@@ -562,8 +569,8 @@ class CallsMixin:
             if name == 'get':
                 key = self.coerce(vals[0], kt, st)
                 kterm = self.as_term(key, st)
-                present = z3.Select(dom, kterm)
-                got = self.unbox(vt, z3.Select(val, kterm), st)
+                present = T.Sel(dom, kterm)
+                got = self.unbox(vt, T.Sel(val, kterm), st)
                 dflt = vals[1] if len(vals) > 1 else self.const(None)
                 a, b, t = self.unify(got, dflt, st)
                 return self.ite(present, a, b, t, st)
@@ -621,7 +628,7 @@ class CallsMixin:
                 env[p] = cv
         if spec.get('assumed'):
             self.assumed.append(label)
-        ordn = self.ordinal(('call', label))
+        ordn = getattr(self, 'call_ord', {}).get(id(node), 0)
         for lab, r in self.norm_clauses(spec.get('requires', ())):
             g = self.eval_spec(r, env, st, pre=st)
             self.emit(st, 'call-pre', f'{label}#{ordn}:{lab}', g, node=node)
